@@ -9,16 +9,8 @@
 
 namespace etl {
 
-namespace detail {
-template <typename, typename T, typename... Args>
-struct is_constructible_helper : false_type { };
-
 template <typename T, typename... Args>
-struct is_constructible_helper<void_t<decltype(T(declval<Args>()...))>, T, Args...> : true_type { };
-} // namespace detail
-
-template <typename T, typename... Args>
-using is_constructible = detail::is_constructible_helper<void_t<>, T, Args...>;
+struct is_constructible : bool_constant<__is_constructible(T, Args...)> { };
 
 template <typename T, typename... Args>
 inline constexpr bool is_constructible_v = is_constructible<T, Args...>::value;
